@@ -285,12 +285,15 @@ pub fn run(params: &Params) {
   let mut next_seq = 0u32;
   let mut credentials: Vec<(String, String, u32, Option<i64>)> = Vec::new(); // (jwt, service id, index, expiry)
   // one run in fifty is a long history
-  let steps = if ctx::chance(1, 50) {
+  let long = ctx::chance(1, 50);
+  let steps = if long {
     ctx::stat("probe.long_history");
     20 + ctx::choose(40)
   } else {
     2 + ctx::choose(9)
   };
+  // (long histories use moderate batches: their point is the number of updates, not their size)
+  let max_batch = if long { max_batch.min(2000) } else { max_batch };
   let mut nontrivial = false;
   for step in 0..steps {
     clock.advance(3600);
